@@ -1,3 +1,6 @@
+import Varint.Bridge.Sizes
+import Varint.Lemmas.FloatDec
+import Varint.Lemmas.BP128
 import Varint.Lemmas.Dict
 import Varint.Lemmas.Elias
 import Varint.Lemmas.PFOR
@@ -67,6 +70,49 @@ theorem elias_code_lengths (v : Nat) (h1 : 1 ≤ v) (h64 : v < 2 ^ 64) :
 theorem dict_size_exact (xs : List Nat) :
     (Dict.enc xs ≠ [] → (Dict.enc xs).length = Dict.size xs) ∧ (Dict.size xs = 0 ↔ Dict.enc xs = []) :=
   ⟨Dict.enc_length xs, Dict.size_eq_zero_iff xs⟩
+
+
+/-- BP128: all four encoders stay inside varintBP128MaxBytes -/
+theorem bp128_extent_le_max (xs : List Nat) (h : ∀ x ∈ xs, x < 2 ^ 64) :
+    (BP128.enc32 xs).length ≤ BP128.maxBytes xs.length ∧ (BP128.enc64 xs).length ≤ BP128.maxBytes xs.length ∧
+    (BP128.encD 32 xs).length ≤ BP128.maxBytes xs.length ∧ (BP128.encD 64 xs).length ≤ BP128.maxBytes xs.length :=
+  ⟨BP128.enc32_length_le64 xs h, BP128.enc64_length_le xs h, BP128.encD32_length_le xs, BP128.encD64_length_le xs⟩
+
+
+/-- float: the encoder stays inside varintFloatMaxEncodedSize — every precision byte, mode and array -/
+theorem float_extent_le_max (p mode : Nat) (ds : List Nat) :
+    (Float.enc p mode ds).length ≤ Float.maxSize ds.length p :=
+  Float.enc_length_le p mode ds
+
+
+/-! ## the advertised sizes are the C's own functions: `Varint.Gen.C.*` is regenerated from the current
+    headers by tools/c2lean.py on every run; below 2^56 elements (no size_t wrap) they are the model's
+    formulas, so every bound above is a bound by what the C function returns. -/
+
+theorem c_sizing_functions (n : Nat) (h : n < 2 ^ 56) :
+    Varint.Gen.C.rleMaxSize n = RLE.maxSize n ∧
+    Varint.Gen.C.bp128MaxBytes n = BP128.maxBytes n ∧
+    Varint.Gen.C.eliasGammaMaxBytes n = Elias.gammaMaxBytes n ∧
+    Varint.Gen.C.eliasDeltaMaxBytes n = Elias.deltaMaxBytes n ∧
+    Varint.Gen.C.deltaMaxEncodedSize n = Delta.maxSize n ∧
+    Varint.Gen.C.adaptiveMaxSize n = Adaptive.maxSize n ∧
+    (∀ p, Varint.Gen.C.floatMaxEncodedSize n p = Float.maxSize n p) ∧
+    (n < 256 → Varint.Gen.C.groupBitmapSize n = Group.bitmapSize n) :=
+  ⟨Varint.Bridge.Sizes.rleMaxSize_eq n (by omega), Varint.Bridge.Sizes.bp128MaxBytes_eq n (by omega),
+   (Varint.Bridge.Sizes.eliasMaxBytes_eq n h).1, (Varint.Bridge.Sizes.eliasMaxBytes_eq n h).2,
+   Varint.Bridge.Sizes.deltaMaxEncodedSize_eq n (by omega), Varint.Bridge.Sizes.adaptiveMaxSize_eq n (by omega),
+   fun p => Varint.Bridge.Sizes.floatMaxEncodedSize_eq n p h, fun h8 => Varint.Bridge.Sizes.groupBitmapSize_eq n h8⟩
+
+/-- varintFORSize of the C (fields of the metadata struct as arguments) is the model's size formula -/
+theorem c_for_size (mn cnt w : Nat) (hmn : mn < 2 ^ 64) (hc : cnt < 2 ^ 56) (hw : w ≤ 8) :
+    Varint.Gen.C.forSize mn cnt w = FOR.size mn cnt w :=
+  Varint.Bridge.Sizes.forSize_eq mn cnt w hmn hc hw
+
+/-- run-length stated against the C's function: the encoder's output never exceeds varintRLEMaxSize(count) -/
+theorem c_rle_extent_le_max (xs : List Nat) (h : xs.length < 2 ^ 56) :
+    (RLE.enc xs).length ≤ Varint.Gen.C.rleMaxSize xs.length ∧ (RLE.encH xs).length ≤ Varint.Gen.C.rleMaxSize xs.length := by
+  rw [Varint.Bridge.Sizes.rleMaxSize_eq _ (by omega)]
+  exact rle_extent_le_max xs
 
 example : (RLE.encH [2 ^ 64 - 1]).length = 11 ∧ RLE.maxSize 1 = 19 := by decide
 
